@@ -60,6 +60,39 @@ var c04SelfTests = []SelfTest{
 	{Name: "transit derives a responder key while relaying a UDP_OPEN", ExpectRule: "C04.R3", ExpectKey: "handleUDPOpen", Edits: []Edit{
 		{File: "internal/agent/udp.go", Old: "\t// Update remaining path\n\tnewPath := open.RemainingPath[1:]\n", New: "\tif k, _, err := deriveResponderSessionKey(open.RequestID, open.EphemeralPubKey); err == nil {\n\t\t_ = k\n\t}\n\tnewPath := open.RemainingPath[1:]\n"},
 	}},
+	{Name: "exit connection wipes its key on Close while the read loop seals with it (seed C04-a class)", ExpectRule: "C04.R4", ExpectKey: "readLoop", Edits: []Edit{
+		{File: "internal/exit/handler.go", Old: "\t\tif ac.Conn != nil {\n\t\t\terr = ac.Conn.Close()\n\t\t}\n", New: "\t\tif ac.Conn != nil {\n\t\t\terr = ac.Conn.Close()\n\t\t}\n\t\tif ac.sessionKey != nil {\n\t\t\tac.sessionKey.Zero()\n\t\t}\n"},
+	}},
+	{Name: "udp association seals outside its lock with a key fetched through the getter (seed C04-b class)", ExpectRule: "C04.R4", ExpectKey: "(*udp.Association).Encrypt", Edits: []Edit{
+		{File: "internal/udp/association.go", Old: "\ta.mu.RLock()\n\tdefer a.mu.RUnlock()\n\n\tif a.SessionKey == nil {\n\t\treturn nil, ErrNoSessionKey\n\t}\n\n\treturn a.SessionKey.Encrypt(plaintext)\n", New: "\tkey := a.GetSessionKey()\n\tif key == nil {\n\t\treturn nil, ErrNoSessionKey\n\t}\n\n\treturn key.Encrypt(plaintext)\n"},
+	}},
+	{Name: "icmp session checks the key in one critical section and seals in another", ExpectRule: "C04.R4", ExpectKey: "(*icmp.Session).Encrypt", Edits: []Edit{
+		{File: "internal/icmp/session.go", Old: "\ts.mu.RLock()\n\tdefer s.mu.RUnlock()\n\n\tif s.SessionKey == nil {\n\t\treturn plaintext, nil\n\t}\n\n\treturn s.SessionKey.Encrypt(plaintext)\n", New: "\ts.mu.RLock()\n\tkey := s.SessionKey\n\ts.mu.RUnlock()\n\tif key == nil {\n\t\treturn plaintext, nil\n\t}\n\ts.mu.RLock()\n\tdefer s.mu.RUnlock()\n\treturn key.Encrypt(plaintext)\n"},
+	}},
+	{Name: "udp association wipes the key under the read lock only", ExpectRule: "C04.R4", ExpectKey: "(*udp.Association).Close", Edits: []Edit{
+		{File: "internal/udp/association.go", Old: "func (a *Association) Close() error {\n\ta.mu.Lock()\n\tdefer a.mu.Unlock()\n", New: "func (a *Association) Close() error {\n\ta.mu.RLock()\n\tdefer a.mu.RUnlock()\n"},
+	}},
+	{Name: "udp association wipes the key but keeps the pointer", ExpectRule: "C04.R4", ExpectKey: "(*udp.Association).Encrypt", Edits: []Edit{
+		{File: "internal/udp/association.go", Old: "\t\ta.SessionKey.Zero()\n\t\ta.SessionKey = nil\n", New: "\t\ta.SessionKey.Zero()\n"},
+	}},
+	{Name: "stream wipes its key on Close while meshConn.Write seals with it", ExpectRule: "C04.R4", ExpectKey: "(*agent.meshConn).Write", Edits: []Edit{
+		{File: "internal/stream/manager.go", Old: "\t\tclose(s.closed)\n", New: "\t\tif s.sessionKey != nil {\n\t\t\ts.sessionKey.Zero()\n\t\t}\n\t\tclose(s.closed)\n"},
+	}},
+	{Name: "short chunks bypass encryption on a fast path", ExpectRule: "C04.R1", ExpectKey: "(*agent.meshConn).Write", Edits: []Edit{
+		{File: "internal/agent/agent.go", Old: "\t\tframe := &protocol.Frame{\n\t\t\tType:     protocol.FrameStreamData,\n\t\t\tStreamID: c.streamID,\n\t\t\tPayload:  ciphertext,\n", New: "\t\tif len(chunk) < 16 {\n\t\t\tciphertext = chunk\n\t\t}\n\t\tframe := &protocol.Frame{\n\t\t\tType:     protocol.FrameStreamData,\n\t\t\tStreamID: c.streamID,\n\t\t\tPayload:  ciphertext,\n"},
+	}},
+	{Name: "exit read loop falls back to a zero-value SessionKey when none was negotiated", ExpectRule: "C04.R5", ExpectKey: "(*exit.Handler).readLoop", Edits: []Edit{
+		{File: "internal/exit/handler.go", Old: "\t\t\tif ac.sessionKey == nil {\n\t\t\t\th.logger.Error(\"no session key in readLoop\",\n\t\t\t\t\tlogging.KeyStreamID, ac.StreamID)\n\t\t\t\treturn\n\t\t\t}\n", New: "\t\t\tif ac.sessionKey == nil {\n\t\t\t\tac.sessionKey = &crypto.SessionKey{}\n\t\t\t}\n"},
+	}},
+	{Name: "udp associations start with a placeholder zero-value key", ExpectRule: "C04.R5", ExpectKey: "(*udp.Association).Encrypt", Edits: []Edit{
+		{File: "internal/udp/association.go", Old: "\t\tLastActivity: now,\n\t\tctx:          ctx,\n", New: "\t\tLastActivity: now,\n\t\tSessionKey:   new(crypto.SessionKey),\n\t\tctx:          ctx,\n"},
+	}},
+	{Name: "rewrite: udp association seals with explicit unlocks instead of defer", Edits: []Edit{
+		{File: "internal/udp/association.go", Old: "\ta.mu.RLock()\n\tdefer a.mu.RUnlock()\n\n\tif a.SessionKey == nil {\n\t\treturn nil, ErrNoSessionKey\n\t}\n\n\treturn a.SessionKey.Encrypt(plaintext)\n", New: "\ta.mu.RLock()\n\tkey := a.SessionKey\n\tif key == nil {\n\t\ta.mu.RUnlock()\n\t\treturn nil, ErrNoSessionKey\n\t}\n\tct, err := key.Encrypt(plaintext)\n\ta.mu.RUnlock()\n\treturn ct, err\n"},
+	}},
+	{Name: "rewrite: udp association clears the pointer first and wipes through a local", Edits: []Edit{
+		{File: "internal/udp/association.go", Old: "\t\ta.SessionKey.Zero()\n\t\ta.SessionKey = nil\n", New: "\t\tkey := a.SessionKey\n\t\ta.SessionKey = nil\n\t\tkey.Zero()\n"},
+	}},
 	{Name: "rewrite: exit encrypts through a local wrapper that fails without a key", Edits: []Edit{
 		{File: "internal/exit/handler.go", Old: "ciphertext, encErr := ac.sessionKey.Encrypt(buf[:n])", New: "ciphertext, encErr := func(p []byte) ([]byte, error) {\n\t\t\t\tif ac.sessionKey == nil {\n\t\t\t\t\treturn nil, fmt.Errorf(\"no session key\")\n\t\t\t\t}\n\t\t\t\treturn ac.sessionKey.Encrypt(p)\n\t\t\t}(buf[:n])"},
 	}},
@@ -975,11 +1008,536 @@ func (cx *c04Ctx) checkRelays() {
 }
 
 // ---------------------------------------------------------------------------------------
+// R4: a session key is never wiped while a sealing path can still use it
+// ---------------------------------------------------------------------------------------
+
+// c04KeyOrigin: a *SessionKey value was loaded from holder field F by instruction Load.
+type c04KeyOrigin struct {
+	F      *types.Var
+	Load   ssa.Instruction // the load of the holder field
+	Base   ssa.Value       // the holder object the field was selected from
+	Direct bool            // Load lies in the function of the use itself (not in a getter, caller or enclosing function)
+}
+
+func c04IsSessionKeyPtr(t types.Type) bool {
+	pt, ok := t.Underlying().(*types.Pointer)
+	if !ok {
+		return false
+	}
+	n, ok := pt.Elem().(*types.Named)
+	return ok && n.Obj().Name() == "SessionKey" && n.Obj().Pkg() != nil && n.Obj().Pkg().Path() == kit.PkgPath("internal/crypto")
+}
+
+// keyOrigins finds the holder fields a *SessionKey value was read from.
+func (cx *c04Ctx) keyOrigins(v ssa.Value, direct bool, seen map[ssa.Value]bool, depth int) []c04KeyOrigin {
+	if v == nil || seen[v] || depth > 6 {
+		return nil
+	}
+	seen[v] = true
+	var out []c04KeyOrigin
+	switch x := v.(type) {
+	case *ssa.Phi:
+		for _, e := range x.Edges {
+			out = append(out, cx.keyOrigins(e, direct, seen, depth)...)
+		}
+	case *ssa.Extract:
+		if c, ok := x.Tuple.(*ssa.Call); ok {
+			out = append(out, cx.keyCallOrigins(c, x.Index, seen, depth)...)
+		}
+	case *ssa.Call:
+		out = append(out, cx.keyCallOrigins(x, 0, seen, depth)...)
+	case *ssa.ChangeType:
+		return cx.keyOrigins(x.X, direct, seen, depth)
+	case *ssa.Parameter:
+		for _, b := range cx.p.ParamBindings(x) {
+			out = append(out, cx.keyOrigins(b.Arg, false, seen, depth+1)...)
+		}
+	case *ssa.UnOp:
+		if x.Op != token.MUL {
+			return nil
+		}
+		switch a := x.X.(type) {
+		case *ssa.FieldAddr:
+			if f := kit.FieldOfAddr(a); f != nil && c04IsSessionKeyPtr(f.Type()) {
+				out = append(out, c04KeyOrigin{F: f, Load: x, Base: a.X, Direct: direct})
+			}
+		case *ssa.Alloc:
+			for _, sv := range c03AllocStores(a) {
+				out = append(out, cx.keyOrigins(sv, direct, seen, depth)...)
+			}
+		case *ssa.FreeVar:
+			if b := c03FreeVarBinding(a); b != nil {
+				if al, ok := b.(*ssa.Alloc); ok {
+					for _, sv := range c03AllocStores(al) {
+						out = append(out, cx.keyOrigins(sv, false, seen, depth+1)...)
+					}
+				}
+			}
+		}
+	}
+	return out
+}
+
+func (cx *c04Ctx) keyCallOrigins(c *ssa.Call, idx int, seen map[ssa.Value]bool, depth int) []c04KeyOrigin {
+	var out []c04KeyOrigin
+	for _, g := range cx.p.CalleesAt(c) {
+		if g == nil || g.Blocks == nil || !kit.IsRepoPkg(kit.FuncPkgPath(g)) {
+			continue
+		}
+		for _, ret := range kit.Returns(g) {
+			if g.Recover != nil && ret.Block() == g.Recover {
+				continue
+			}
+			if rv := kit.ReturnResult(ret, idx); rv != nil {
+				out = append(out, cx.keyOrigins(rv, false, seen, depth+1)...)
+			}
+		}
+	}
+	return out
+}
+
+// c04MutexFields lists the sync.Mutex / sync.RWMutex fields of the struct the holder base points to.
+func c04MutexFields(base ssa.Value) []*types.Var {
+	t := base.Type()
+	if pt, ok := t.Underlying().(*types.Pointer); ok {
+		t = pt.Elem()
+	}
+	st, ok := t.Underlying().(*types.Struct)
+	if !ok {
+		return nil
+	}
+	var out []*types.Var
+	for i := 0; i < st.NumFields(); i++ {
+		f := st.Field(i)
+		if n, ok := f.Type().(*types.Named); ok && n.Obj().Pkg() != nil && n.Obj().Pkg().Path() == "sync" &&
+			(n.Obj().Name() == "Mutex" || n.Obj().Name() == "RWMutex") {
+			out = append(out, f)
+		}
+	}
+	return out
+}
+
+func c04HolderName(base ssa.Value, f *types.Var) string {
+	t := base.Type()
+	if pt, ok := t.Underlying().(*types.Pointer); ok {
+		t = pt.Elem()
+	}
+	if n, ok := t.(*types.Named); ok {
+		return n.Obj().Pkg().Name() + "." + n.Obj().Name() + "." + f.Name()
+	}
+	return f.Name()
+}
+
+// c04WriteHeld: mutex m is held in write mode (Lock, not RLock) at instruction at.
+func c04WriteHeld(li *kit.LockInfo, at ssa.Instruction, m *types.Var) bool {
+	acq, held := li.HeldAt(at, m)
+	if !held || acq == nil {
+		return false
+	}
+	c, ok := acq.(ssa.CallInstruction)
+	return ok && kit.CalleeOf(c).Name == "Lock"
+}
+
+type c04Wipe struct {
+	site   ssa.Instruction
+	fn     *ssa.Function
+	what   string
+	origin c04KeyOrigin
+	mutex  *types.Var          // held in write mode around the wipe (nil: none)
+	marks  map[*types.Var]bool // holder fields stored in the same critical section as the wipe
+	key    string
+}
+
+func (cx *c04Ctx) checkKeyLifetime() {
+	r, p := cx.r, cx.p
+	sk := p.NamedType("internal/crypto", "SessionKey")
+	if !r.Require(sk != nil, "anchor-unresolved: type internal/crypto.SessionKey") {
+		return
+	}
+	var keyFld *types.Var
+	for _, f := range kit.StructFields(sk) {
+		if c03IsKeyArray(f.Type()) {
+			keyFld = f
+		}
+	}
+	if !r.Require(keyFld != nil, "anchor-unresolved: 32-byte key field of SessionKey") {
+		return
+	}
+	// methods of SessionKey that overwrite the key bytes in place
+	wipers := map[*ssa.Function]bool{}
+	for _, m := range p.Methods("internal/crypto", "SessionKey") {
+		kit.Instrs(m, func(in ssa.Instruction) {
+			fa, ok := in.(*ssa.FieldAddr)
+			if !ok || kit.FieldOfAddr(fa) != keyFld || fa.Referrers() == nil {
+				return
+			}
+			derived := map[ssa.Value]bool{fa: true}
+			for _, rf := range *fa.Referrers() {
+				if sl, ok := rf.(*ssa.Slice); ok {
+					derived[sl] = true
+				}
+				if ia, ok := rf.(*ssa.IndexAddr); ok {
+					derived[ia] = true
+				}
+			}
+			for d := range derived {
+				if d.Referrers() == nil {
+					continue
+				}
+				for _, rf := range *d.Referrers() {
+					switch x := rf.(type) {
+					case *ssa.Store:
+						if x.Addr == d {
+							wipers[m] = true
+						}
+					case ssa.CallInstruction:
+						cal := kit.CalleeOf(x)
+						for i, a := range x.Common().Args {
+							if a != d {
+								continue
+							}
+							if (cal.Built == "copy" && i == 0) || cal.Built == "clear" {
+								wipers[m] = true
+							}
+							if cal.Static != nil && kit.IsRepoPkg(kit.FuncPkgPath(cal.Static)) && kit.WritesThroughParam(cal.Static, i) {
+								wipers[m] = true
+							}
+						}
+					}
+				}
+			}
+		})
+	}
+	r.Count("key_wiping_methods", len(wipers))
+	crypt := kit.PkgPath("internal/crypto")
+	// wipe sites outside internal/crypto
+	var wipes []*c04Wipe
+	ord := map[*ssa.Function]int{}
+	for _, fn := range p.RepoFuncs() {
+		if kit.FuncPkgPath(fn) == crypt {
+			continue
+		}
+		kit.Instrs(fn, func(in ssa.Instruction) {
+			var keyVal ssa.Value
+			what := ""
+			switch x := in.(type) {
+			case ssa.CallInstruction:
+				if g := kit.CalleeOf(x).Static; g != nil && wipers[g] {
+					keyVal, what = kit.Receiver(x), g.Name()
+				}
+			case *ssa.Store:
+				// *holder.F = SessionKey{...}: overwrites the key object in place
+				if c04IsSessionKeyPtr(x.Addr.Type()) {
+					if _, isAlloc := x.Addr.(*ssa.Alloc); !isAlloc {
+						keyVal, what = x.Addr, "overwrite"
+					}
+				}
+			}
+			if keyVal == nil {
+				return
+			}
+			for _, o := range cx.keyOrigins(keyVal, true, map[ssa.Value]bool{}, 0) {
+				ord[fn]++
+				w := &c04Wipe{site: in, fn: fn, what: what, origin: o, marks: map[*types.Var]bool{}}
+				w.key = fmt.Sprintf("%s %s of %s #%d", kit.FuncName(fn), what, c04HolderName(o.Base, o.F), ord[fn])
+				li := kit.Locks(fn)
+				for _, m := range c04MutexFields(o.Base) {
+					if c04WriteHeld(li, in, m) {
+						w.mutex = m
+					}
+				}
+				if w.mutex == nil {
+					// one level: a helper that is only called with the holder's lock held
+					callers := p.StaticCallers(fn)
+					for _, m := range c04MutexFields(o.Base) {
+						all := len(callers) > 0
+						for _, cs := range callers {
+							if !c04WriteHeld(kit.Locks(cs.Parent()), cs, m) {
+								all = false
+							}
+						}
+						if all {
+							w.mutex = m
+						}
+					}
+				}
+				if w.mutex != nil {
+					// holder fields (re)written in the same critical section tell later users that the key is gone
+					kit.Instrs(fn, func(in2 ssa.Instruction) {
+						st, ok := in2.(*ssa.Store)
+						if !ok {
+							return
+						}
+						fa, ok := st.Addr.(*ssa.FieldAddr)
+						if !ok || !types.Identical(fa.X.Type(), o.Base.Type()) {
+							return
+						}
+						if _, held := li.HeldAt(st, w.mutex); held || len(p.StaticCallers(fn)) > 0 && !c04WriteHeld(li, in, w.mutex) {
+							w.marks[kit.FieldOfAddr(fa)] = true
+						}
+					})
+				}
+				wipes = append(wipes, w)
+			}
+		})
+	}
+	r.Count("key_wipe_sites", len(wipes))
+	byField := map[*types.Var][]*c04Wipe{}
+	for _, w := range wipes {
+		byField[w.origin.F] = append(byField[w.origin.F], w)
+	}
+	// sealing uses of keys read from a holder field that is wiped somewhere
+	type use struct {
+		call ssa.CallInstruction
+		o    c04KeyOrigin
+	}
+	uses := map[*types.Var][]use{}
+	nUses := 0
+	for _, fn := range p.RepoFuncs() {
+		if kit.FuncPkgPath(fn) == crypt {
+			continue
+		}
+		for _, c := range kit.Calls(fn) {
+			if kit.CalleeOf(c).Static != cx.encrypt {
+				continue
+			}
+			nUses++
+			for _, o := range cx.keyOrigins(kit.Receiver(c), true, map[ssa.Value]bool{}, 0) {
+				if len(byField[o.F]) > 0 {
+					uses[o.F] = append(uses[o.F], use{c, o})
+				}
+			}
+		}
+	}
+	r.Count("encrypt_call_sites", nUses)
+	for _, w := range wipes {
+		us := uses[w.origin.F]
+		pos := p.Pos(w.site.Pos())
+		holder := c04HolderName(w.origin.Base, w.origin.F)
+		switch {
+		case len(us) == 0:
+			r.OK("C04.R4", w.key, pos, "no sealing path reads its key from %s", holder)
+		case w.mutex == nil:
+			u := us[0]
+			r.Violation("C04.R4", w.key, pos,
+				"the key bytes of %s are wiped in place without holding a lock of the holder, while %s (at %s) seals with the same key: a chunk read just before the close is sealed under the all-zero key and every transit agent can open it",
+				holder, kit.FuncName(u.call.Parent()), p.Pos(u.call.Pos()))
+		default:
+			r.OK("C04.R4", w.key, pos, "key wiped while holding %s in write mode", w.mutex.Name())
+		}
+	}
+	useOrd := map[*ssa.Function]int{}
+	for f, us := range uses {
+		_ = f
+		for _, u := range us {
+			fn := u.call.Parent()
+			useOrd[fn]++
+			holder := c04HolderName(u.o.Base, u.o.F)
+			key := fmt.Sprintf("%s Encrypt with %s #%d", kit.FuncName(fn), holder, useOrd[fn])
+			pos := p.Pos(u.call.Pos())
+			li := kit.Locks(fn)
+			bad := ""
+			for _, w := range byField[u.o.F] {
+				wp := kit.FuncName(w.fn) + " (" + p.Pos(w.site.Pos()) + ")"
+				switch {
+				case w.mutex == nil:
+					bad = "the key is wiped by " + wp + " under no lock, so nothing excludes the wipe while this call seals"
+				case !u.o.Direct:
+					bad = "the key pointer is obtained in another function (getter, caller or enclosing function), i.e. outside the critical section of this call, while " + wp + " wipes the key bytes in place under " + w.mutex.Name()
+				case !li.SameRegion(u.o.Load, u.call, w.mutex):
+					bad = "the key pointer is read and used without holding " + w.mutex.Name() + " across both, while " + wp + " wipes the key bytes in place under that lock"
+				default:
+					// the sealing path must learn, inside its critical section, that the key is gone
+					seen := false
+					for _, g := range kit.GuardsOf(u.call) {
+						_, leaves := kit.ExprReads(g.Cond)
+						for _, l := range leaves {
+							if lf, _ := kit.LoadedField(l); lf != nil && w.marks[lf] {
+								if li2, ok := l.(ssa.Instruction); ok && li.SameRegion(li2, u.call, w.mutex) {
+									seen = true
+								}
+							}
+						}
+					}
+					if !seen {
+						bad = "after " + wp + " wiped the key nothing this call tests inside its critical section has changed (the wipe does not clear the field or set a flag that is checked here): a later call seals under the all-zero key"
+					}
+				}
+				if bad != "" {
+					break
+				}
+			}
+			r.Decide(bad == "", "C04.R4", key, pos,
+				"key pointer read, validity test and Encrypt lie in one critical section of the lock under which the key is wiped",
+				bad+"; the frame is sealed under a key every transit agent knows")
+		}
+	}
+}
+
+// ---------------------------------------------------------------------------------------
+// R5: every sealing call uses a key that came out of the tunnel's own key exchange
+// ---------------------------------------------------------------------------------------
+
+// keySources returns the places where a *SessionKey value that is not a result of
+// DeriveSessionKey (or nil) enters v.
+func (cx *c04Ctx) keySources(v ssa.Value, seen map[ssa.Value]bool, seenFld map[*types.Var]bool, depth int) []c04Leaf {
+	if v == nil || seen[v] {
+		return nil
+	}
+	seen[v] = true
+	if depth > 10 || len(seen) > 4000 {
+		return []c04Leaf{{Fn: c04FnOf(v), What: "key provenance too deep to follow", Pos: v.Pos()}}
+	}
+	bad := func(what string) []c04Leaf { return []c04Leaf{{Fn: c04FnOf(v), What: what, Pos: v.Pos()}} }
+	var out []c04Leaf
+	switch x := v.(type) {
+	case *ssa.Const:
+		return nil // nil key: the call panics, nothing is sent
+	case *ssa.Phi:
+		for _, e := range x.Edges {
+			out = append(out, cx.keySources(e, seen, seenFld, depth)...)
+		}
+		return out
+	case *ssa.ChangeType:
+		return cx.keySources(x.X, seen, seenFld, depth)
+	case *ssa.Extract:
+		if c, ok := x.Tuple.(*ssa.Call); ok {
+			return cx.keyCallSources(c, x.Index, seen, seenFld, depth)
+		}
+		if ta, ok := x.Tuple.(*ssa.TypeAssert); ok {
+			return cx.keySources(ta.X, seen, seenFld, depth)
+		}
+		return bad("key taken from a map, channel or tuple")
+	case *ssa.Call:
+		return cx.keyCallSources(x, 0, seen, seenFld, depth)
+	case *ssa.Parameter:
+		binds := cx.p.ParamBindings(x)
+		for _, b := range binds {
+			if b.Caller.Synthetic == "" && !kit.IsRepoPkg(kit.FuncPkgPath(b.Caller)) {
+				continue
+			}
+			out = append(out, cx.keySources(b.Arg, seen, seenFld, depth+1)...)
+		}
+		return out
+	case *ssa.Alloc:
+		// &crypto.SessionKey{} : a key object that never saw a key exchange (all-zero key)
+		return bad("SessionKey constructed without DeriveSessionKey (zero-value key)")
+	case *ssa.UnOp:
+		if x.Op != token.MUL {
+			return bad("key of unknown origin")
+		}
+		switch a := x.X.(type) {
+		case *ssa.FieldAddr:
+			f := kit.FieldOfAddr(a)
+			if f == nil {
+				return bad("key of unknown origin")
+			}
+			if al, ok := a.X.(*ssa.Alloc); ok {
+				for _, sv := range c03FieldStoresOf(al, f) {
+					out = append(out, cx.keySources(sv, seen, seenFld, depth)...)
+				}
+				return out
+			}
+			if seenFld[f] {
+				return nil
+			}
+			seenFld[f] = true
+			for _, acc := range cx.p.FieldAccessesOfKind(f, kit.FieldStore) {
+				out = append(out, cx.keySources(acc.Val, seen, seenFld, depth+1)...)
+			}
+			return out
+		case *ssa.Alloc:
+			for _, sv := range c03AllocStores(a) {
+				out = append(out, cx.keySources(sv, seen, seenFld, depth)...)
+			}
+			return out
+		case *ssa.FreeVar:
+			if b := c03FreeVarBinding(a); b != nil {
+				if al, ok := b.(*ssa.Alloc); ok {
+					for _, sv := range c03AllocStores(al) {
+						out = append(out, cx.keySources(sv, seen, seenFld, depth+1)...)
+					}
+					return out
+				}
+			}
+			return bad("key captured from an enclosing function in an unknown way")
+		case *ssa.Global:
+			return bad("package-level key " + a.Name())
+		}
+		return bad("key loaded from a collection or unknown memory")
+	case *ssa.Lookup:
+		return bad("key taken from a map")
+	}
+	return bad(fmt.Sprintf("key of unknown origin (%T)", v))
+}
+
+func (cx *c04Ctx) keyCallSources(c *ssa.Call, idx int, seen map[ssa.Value]bool, seenFld map[*types.Var]bool, depth int) []c04Leaf {
+	var out []c04Leaf
+	callees := cx.p.CalleesAt(c)
+	if len(callees) == 0 {
+		return []c04Leaf{{Fn: c.Parent(), What: "key returned by a call that cannot be resolved", Pos: c.Pos()}}
+	}
+	for _, g := range callees {
+		switch {
+		case g == cx.c03.derive:
+			// the tunnel's own key exchange
+		case g.Blocks != nil && kit.IsRepoPkg(kit.FuncPkgPath(g)):
+			for _, ret := range kit.Returns(g) {
+				if g.Recover != nil && ret.Block() == g.Recover {
+					continue
+				}
+				if rv := kit.ReturnResult(ret, idx); rv != nil {
+					out = append(out, cx.keySources(rv, seen, seenFld, depth+1)...)
+				}
+			}
+		default:
+			out = append(out, c04Leaf{Fn: c.Parent(), What: "key returned by " + kit.CalleeOf(c).String(), Pos: c.Pos()})
+		}
+	}
+	return out
+}
+
+func (cx *c04Ctx) checkKeySources() {
+	r, p := cx.r, cx.p
+	crypt := kit.PkgPath("internal/crypto")
+	n := 0
+	for _, fn := range p.RepoFuncs() {
+		if kit.FuncPkgPath(fn) == crypt {
+			continue
+		}
+		ord := 0
+		for _, c := range kit.Calls(fn) {
+			if kit.CalleeOf(c).Static != cx.encrypt {
+				continue
+			}
+			ord++
+			n++
+			key := fmt.Sprintf("%s Encrypt #%d key source", kit.FuncName(fn), ord)
+			leaves := c04Dedup(cx.keySources(kit.Receiver(c), map[ssa.Value]bool{}, map[*types.Var]bool{}, 0))
+			if len(leaves) == 0 {
+				r.OK("C04.R5", key, p.Pos(c.Pos()), "the sealing key is a result of DeriveSessionKey on every path")
+				continue
+			}
+			var ds []string
+			for _, l := range leaves {
+				ds = append(ds, l.key()+" at "+p.Pos(l.Pos))
+			}
+			r.Violation("C04.R5", key, p.Pos(c.Pos()),
+				"this call seals with a key that did not come out of the tunnel's key exchange (%s): the frame is not protected by the end-to-end key, e.g. a zero-value SessionKey is the all-zero key every transit agent knows",
+				strings.Join(ds, "; "))
+		}
+	}
+	r.Count("encrypt_sites_key_source_checked", n)
+}
+
+// ---------------------------------------------------------------------------------------
 // run
 // ---------------------------------------------------------------------------------------
 
 func runC04(p *kit.Program, r *kit.Report) {
 	r.Rule("C04.R1", "the application bytes of every STREAM_DATA / UDP_DATAGRAM / ICMP_ECHO frame come only from (*SessionKey).Encrypt, from a received frame or datagram relayed unchanged, or are empty (parameters followed to all callers, wrappers summarised by their return values)")
+	r.Rule("C04.R4", "key lifetime: wherever a session key held in a struct field is wiped in place, the wipe holds the holder's lock in write mode, and every Encrypt with a key read from that field reads the pointer, tests a field the wipe's critical section changes, and seals inside one critical section of the same lock")
+	r.Rule("C04.R5", "every Encrypt call outside internal/crypto uses a key that is, on every data-flow path, a result of DeriveSessionKey (never a zero-value SessionKey, a package-level key or a key of unknown origin)")
 	r.Rule("C04.R3", "the state a relay records holds no key material, and no call that can reach DeriveSessionKey lies on the forwarding path of a relayed open message")
 	cx := newC04Ctx(p, r)
 	if cx == nil {
@@ -1028,4 +1586,6 @@ func runC04(p *kit.Program, r *kit.Report) {
 		return
 	}
 	cx.checkRelays()
+	cx.checkKeyLifetime()
+	cx.checkKeySources()
 }
